@@ -17,6 +17,13 @@ C19 driver.
   sl <bytes>               -> lines                      (split_lines)
   fi <showbase> <base lines> <this lines> <other lines> <regions> -> T|F   (hypothesis FromInputs)
   mk <base lines> <this lines> <other lines>             -> bytes  (the start marker text_merge uses)
+
+  loc     = <dir number>:<name hex>
+  files   = `_` | loc:<content bytes>,…   (sorted by directory number, then name bytes)
+  placed  = <files> <record ~|text:loc|contents:loc> <file id at ~|loc> <path conflict T|F>
+  pl <reprocess> <showbase> <base loc | ~ (not in BASE)> <this loc> <other loc> <base lines> <this lines> <other lines> <regions>
+        -> placed | `E:…`                                 (mergeEntry: name merge + content merge + helper names)
+  rp <this|other> <placed> -> placed | `E:Malformed`      (resolve by the recorded path)
 -/
 namespace BreezyVerif.C19
 
@@ -76,7 +83,80 @@ def parseSlot (f b t o k i : String) : Option Slot := do
 def parseSide (s : String) : Option Side :=
   if s == "this" then some .this else if s == "other" then some .other else none
 
+def parseLoc2 (d n : String) : Option Loc := do
+  pure ⟨← d.toNat?, ← fromHex n⟩
+
+def parseLoc (s : String) : Option Loc :=
+  match s.splitOn ":" with
+  | [d, n] => parseLoc2 d n
+  | _ => none
+
+def showLoc (l : Loc) : String := s!"{l.parent}:{toHex l.name}"
+
+def parseFile (s : String) : Option (Loc × Bytes) :=
+  match s.splitOn ":" with
+  | [d, n, c] => do pure (← parseLoc2 d n, ← fromHex c)
+  | _ => none
+
+def parseFiles (s : String) : Option (List (Loc × Bytes)) :=
+  if s == "_" then some [] else (s.splitOn ",").mapM parseFile
+
+def bytesLe : Bytes → Bytes → Bool
+  | [], _ => true
+  | _ :: _, [] => false
+  | a :: as, b :: bs => if a < b then true else if a = b then bytesLe as bs else false
+
+def locLe (a b : Loc) : Bool :=
+  decide (a.parent < b.parent) || (decide (a.parent = b.parent) && bytesLe a.name b.name)
+
+def showFiles (fs : List (Loc × Bytes)) : String :=
+  if fs.isEmpty then "_"
+  else ",".intercalate ((fs.mergeSort fun a b => locLe a.1 b.1).map fun f => s!"{showLoc f.1}:{toHex f.2}")
+
+def parseRec (s : String) : Option (Option (Kind × Loc)) :=
+  match s.splitOn ":" with
+  | ["~"] => some none
+  | ["text", d, n] => (parseLoc2 d n).map fun l => some (.text, l)
+  | ["contents", d, n] => (parseLoc2 d n).map fun l => some (.contents, l)
+  | _ => none
+
+def showRec : Option (Kind × Loc) → String
+  | none => "~"
+  | some (.text, l) => s!"text:{showLoc l}"
+  | some (.contents, l) => s!"contents:{showLoc l}"
+
+def parseOptLoc (s : String) : Option (Option Loc) :=
+  if s == "~" then some none else (parseLoc s).map some
+
+def showOptLoc : Option Loc → String
+  | none => "~"
+  | some l => showLoc l
+
+def showPlaced (p : Placed) : String :=
+  s!"{showFiles p.files} {showRec p.record} {showOptLoc p.idAt} {showBool p.pathConflict}"
+
 def handle : List String → String
+  | ["pl", r, s, bl, tl, ol, base, this, other, regions] =>
+    match parseBool r, parseBool s, parseOptLoc bl, parseLoc tl, parseLoc ol,
+          parseLines base, parseLines this, parseLines other, parseRegions regions with
+    | some r, some s, some bl, some tl, some ol, some base, some this, some other, some regions =>
+      -- an entry absent from BASE (`~`) has no BASE text either
+      if bl.isNone && !base.isEmpty then "bad-op" else
+      let b : Option (Loc × List Line) := bl.map fun l => (l, base)
+      match mergeEntry ⟨r, s⟩ b tl ol this other regions with
+      | some p => showPlaced p
+      | none =>
+        match mergeFileOpt ⟨r, s⟩ (b.map (·.2)) this other regions with
+        | .error e => showErr e
+        | _ => "bad-op"
+    | _, _, _, _, _, _, _, _, _ => "bad-op"
+  | ["rp", w, files, rec, idAt, pc] =>
+    match parseSide w, parseFiles files, parseRec rec, parseOptLoc idAt, parseBool pc with
+    | some w, some files, some rec, some idAt, some pc =>
+      match resolvePlaced w ⟨files, rec, idAt, pc⟩ with
+      | .error e => showErr e
+      | .ok p => showPlaced p
+    | _, _, _, _, _ => "bad-op"
   | ["tm", r, s, base, this, other, regions] =>
     match parseBool r, parseBool s, parseLines base, parseLines this, parseLines other, parseRegions regions with
     | some r, some s, some base, some this, some other, some regions =>
